@@ -635,8 +635,28 @@ static Verdict run_case(const TCase &c) {
     break;
   }
   case L_ADDTRAPS: {
-    // pixman_trap_t spans: edges (top.l,top.y)-(bot.l,bot.y) and (top.r,top.y)-(bot.r,bot.y)
-    if (T.bottom <= T.top) return v;
+    // pixman_trap_t spans: edges (top.l,top.y)-(bot.l,bot.y) and (top.r,top.y)-(bot.r,bot.y). The span under test is
+    // preceded, in the same call, by up to two spans that cover no sample row (zero height; a sliver between two sample
+    // rows; far below the image): they add nothing, and the spans after them are still drawn (seeded C12u)
+    std::vector<pixman_trap_t> list;
+    int npre = (int)((c.seed >> 20) % 3);
+    for (int k = 0; k < npre; k++) {
+      pixman_trap_t iv;
+      int64_t s0 = (T.top & ~(int64_t)0xffff) + g.y0;  // a sample row
+      int64_t ty, by;
+      switch ((int)((c.seed >> (24 + 2 * k)) % 3)) {
+      case 0: ty = by = T.top; break;
+      case 1: ty = s0 + 1, by = s0 + 3; break;
+      default: ty = ((int64_t)c.h + 50 - c.yoff) * 65536, by = ty + 3 * 65536; break;
+      }
+      if (!fits32(ty) || !fits32(by) || !fits32(ty + (int64_t)c.yoff * 65536) || !fits32(by + (int64_t)c.yoff * 65536)) continue;
+      iv.top.y = (pixman_fixed_t)ty;
+      iv.bot.y = (pixman_fixed_t)by;
+      iv.top.l = iv.bot.l = (pixman_fixed_t)T.l1.x;
+      iv.top.r = iv.bot.r = (pixman_fixed_t)T.r1.x;
+      list.push_back(iv);
+    }
+    if (!list.empty()) v.label("add_traps_after_invisible_spans");
     pixman_trap_t tr;
     tr.top.y = (pixman_fixed_t)T.top;
     tr.bot.y = (pixman_fixed_t)T.bottom;
@@ -644,6 +664,7 @@ static Verdict run_case(const TCase &c) {
     tr.bot.l = (pixman_fixed_t)T.l2.x;
     tr.top.r = (pixman_fixed_t)T.r1.x;
     tr.bot.r = (pixman_fixed_t)T.r2.x;
+    list.push_back(tr);
     Trap E;
     E.top = T.top;
     E.bottom = T.bottom;
@@ -652,10 +673,11 @@ static Verdict run_case(const TCase &c) {
     E.r1 = Pt{T.r1.x, T.top};
     E.r2 = Pt{T.r2.x, T.bottom};
     Canvas a = make_canvas(c, c.w, c.h), b = make_canvas(c, c.w, c.h);
-    pixman_add_traps(a.im->im, (int16_t)c.xoff, (int16_t)c.yoff, 1, &tr);
-    rasterize(b.im->im, E, c.xoff, c.yoff);
+    pixman_add_traps(a.im->im, (int16_t)c.xoff, (int16_t)c.yoff, (int)list.size(), list.data());
+    if (T.bottom > T.top) rasterize(b.im->im, E, c.xoff, c.yoff);  // (a span of no height draws nothing either)
     {
-      std::vector<Trap> one{E};
+      std::vector<Trap> one;
+      if (T.bottom > T.top) one.push_back(E);
       judge_law(v, *a.im, *b.im, one, g, c.xoff, c.yoff, "add_traps vs rasterize_trapezoid of the equivalent trapezoid");
     }
     v.nontrivial = nonvertical;
